@@ -1607,15 +1607,6 @@ class Interp:
                 len(args) == 1 and not kwargs and args[0].op != "star":
             # np.shape(a) is a.shape etc.: one term for both spellings
             return tm.attr(args[0], _ATTR_ALIASES[fn.args[0]])
-        if fn.op == "global" and fn.args[0] == "builtins.list" and \
-                len(args) == 1 and not kwargs and \
-                is_zip_call(args[0]) and len(args[0].args[1]) >= 2:
-            # list(zip(a, b)) is [(x, y) for x, y in zip(a, b)]: one term
-            lid = self.new_loop(node)
-            z = args[0]
-            return T("comp", "list",
-                     T("tuple", *[T("elem", a, lid) for a in z.args[1]]),
-                     ((z, lid),), ())
         if fn.op == "global" and fn.args[0] == "builtins.len" and \
                 len(args) == 1 and not kwargs and tm.is_const(args[0]) and \
                 isinstance(tm.const_val(args[0]), (str, bytes)):
